@@ -392,8 +392,17 @@ def viol_context(path, c, ln):
     # subscribe/get request for the same resource id was still outstanding
     outst, reqs = {}, {}
     rid_of_viol = None
+    mqconn = {}
     for x in lines[:ln]:
         g = x.split("\t")
+        # a call/auth answered with a resource response takes a direct subscription on that resource while the
+        # client's request is still outstanding
+        if g[0] == "MQREQ" and len(g) > 5 and g[2] in ("call", "auth"):
+            mqconn[g[1]] = g[5]
+        elif g[0] == "MQRESP" and len(g) > 3 and g[2] == "resource" and mqconn.get(g[1]) == c:
+            outst[g[3]] = outst.get(g[3], 0) + 1
+        elif g[0] == "RESP" and len(g) > 4 and g[1] == c and g[3] == "okrid":
+            outst[g[4]] = outst.get(g[4], 0) - 1
         if g[0] == "REQ" and len(g) > 4 and g[1] == c:
             reqs[g[2]] = (g[3], g[4])
             if g[3] in ("subscribe", "get", "call", "auth", "new"):
@@ -411,6 +420,32 @@ def viol_context(path, c, ln):
         elif g[0] == "EV" and len(g) > 3 and g[1] == c and g[3] in ("delete", "unsub") and outst.get(g[2], 0) > 0:
             # ... or a delete / unsubscribe event reached the client while its request for that id was outstanding
             ctx.append("revoked-while-pending:" + g[2])
+    # earlier in this history the connection was sent events right after a get response (recorded finding
+    # KF-GET-EVENTS): resources handed over inside such events are unknown to the client from then on
+    after_get = False
+    for x in lines[:ln]:
+        h = x.split("\t")
+        if h[0] == "SCHED":
+            after_get = False
+        elif h[0] == "RESP" and len(h) > 2 and h[1] == c and reqkind.get((h[1], h[2])) == "get":
+            after_get = True
+        elif h[0] == "EV" and len(h) > 1 and h[1] == c and after_get:
+            ctx.append("after-get-response")
+            break
+    # the violating frame answers a get request during whose lifetime another get response reached this connection
+    g = lines[ln - 1].split("\t") if 0 < ln <= len(lines) else []
+    if len(g) > 3 and g[0] == "RESP" and g[1] == c:
+        start = None
+        for i0, x in enumerate(lines[:ln - 1]):
+            h = x.split("\t")
+            if h[0] == "REQ" and len(h) > 3 and h[1] == c and h[2] == g[2] and h[3] == "get":
+                start = i0
+        if start is not None:
+            for x in lines[start:ln - 1]:
+                h = x.split("\t")
+                if h[0] == "RESP" and h[1] == c and reqkind.get((h[1], h[2])) == "get":
+                    ctx.append("after-get-response")
+                    break
     i = ln - 2
     while i >= 0:
         g = lines[i].split("\t")
